@@ -36,7 +36,6 @@ Hypothesis P_step : forall st o, op_pos_ok o -> P st -> P (apply_op st o).
 
 Definition Pw (st : wstate) : Prop := P (w_normal st) /\ P (w_low st).
 Definition nodes_ok (l : list node) : Prop := forall p, In p (poss l) -> Sp p.
-Definition pend_ok (pend : option pos) : Prop := match pend with Some q => Sp q | None => True end.
 
 Lemma nodes_ok_cons : forall x r, nodes_ok (x :: r) -> Sp (node_pos x) /\ nodes_ok r.
 Proof.
@@ -67,12 +66,6 @@ Qed.
 
 Lemma cur_pos_ok : forall l endp, nodes_ok l -> Sp endp -> Sp (cur_pos l endp).
 Proof. intros l endp H He. destruct l as [|x r]; [exact He|]. apply (nodes_ok_head _ _ H). Qed.
-
-Lemma or_pos_ok : forall pend p, pend_ok pend -> Sp p -> Sp (or_pos pend p).
-Proof. intros [q|] p H Hp; [exact H | exact Hp]. Qed.
-
-Lemma keep_first_ok : forall pend p, pend_ok pend -> Sp p -> pend_ok (keep_first pend p).
-Proof. intros [q|] p H Hp; [exact H | exact Hp]. Qed.
 
 Lemma Pw_emit : forall st o, op_pos_ok o -> Pw st -> Pw (emit st o).
 Proof. intros st o Ho [Hn Hl]. unfold emit, Pw. destruct (w_using_low st); cbn; split; auto. Qed.
@@ -109,81 +102,76 @@ Proof. intros. unfold nodes_size. cbn [fold_right]. destruct x; cbn [node_size];
 Lemma size_body : forall t p body e c r, (nodes_size body < nodes_size (Block t p body e c :: r))%nat.
 Proof. intros. unfold nodes_size. cbn [fold_right node_size]. fold (nodes_size body). lia. Qed.
 
-Lemma Pw_rpx_body : forall o l in_calc prev pend st,
-  nodes_ok l -> pend_ok pend -> Pw st -> Pw (rpx_body o in_calc l prev pend st).
+Lemma Pw_rpx_body : forall o l in_calc prev st,
+  nodes_ok l -> Pw st -> Pw (rpx_body o in_calc l prev st).
 Proof.
   intros o l.
   remember (nodes_size l) as n eqn:Hn. revert l Hn.
   induction n as [n IHn] using (well_founded_induction Wf_nat.lt_wf).
-  intros l Hn. destruct l as [|x r]; intros in_calc prev pend st Hl Hp H; [exact H|].
+  intros l Hn. destruct l as [|x r]; intros in_calc prev st Hl H; [exact H|].
   cbn [rpx_body].
   destruct (nodes_ok_cons _ _ Hl) as [Hx Hrl].
-  assert (Hr : forall ic pv pd s, pend_ok pd -> Pw s -> Pw (rpx_body o ic r pv pd s)).
-  { intros. eapply (IHn (nodes_size r)); [|reflexivity|exact Hrl|assumption|assumption].
+  assert (Hr : forall ic pv s, Pw s -> Pw (rpx_body o ic r pv s)).
+  { intros. eapply (IHn (nodes_size r)); [|reflexivity|exact Hrl|assumption].
     subst n. apply size_tail. }
-  destruct (is_comment (node_tok x)).
-  { apply Hr; [|exact H]. destruct in_calc; [apply keep_first_ok; assumption | exact I]. }
-  destruct (is_ws (node_tok x) && negb in_calc); [apply Hr; [exact I | exact H]|].
-  apply Hr; [exact I|].
-  pose proof (or_pos_ok pend (node_pos x) Hp Hx) as Hop.
+  destruct (is_comment (node_tok x)); [apply Hr; exact H|].
+  destruct (is_ws (node_tok x) && negb in_calc); [apply Hr; exact H|].
+  apply Hr.
   destruct x as [t p | open p body endp closed].
-  - destruct t; auto with pw.
+  - cbn [node_pos] in *. destruct t; auto with pw.
     destruct (is_plus_minus (first_noncomment r) || is_plus_minus prev); auto with pw.
-  - destruct (nodes_ok_block _ _ _ _ _ _ Hl) as [He Hb].
-    apply Pw_tok_at; [exact Hop|].
-    eapply (IHn (nodes_size body)); [|reflexivity|exact Hb|exact I|auto with pw].
+  - cbn [node_pos] in *. destruct (nodes_ok_block _ _ _ _ _ _ Hl) as [He Hb].
+    apply Pw_tok_at; [exact Hx|].
+    eapply (IHn (nodes_size body)); [|reflexivity|exact Hb|auto with pw].
     subst n. apply size_body.
 Qed.
 
-Lemma Pw_cn_body : forall o l lead ic hw pend st,
-  nodes_ok l -> pend_ok pend -> Pw st -> Pw (cn_body o l lead ic hw pend st).
+Lemma Pw_cn_body : forall o l lead ic hw st,
+  nodes_ok l -> Pw st -> Pw (cn_body o l lead ic hw st).
 Proof.
   intros o l.
   remember (nodes_size l) as n eqn:Hn. revert l Hn.
   induction n as [n IHn] using (well_founded_induction Wf_nat.lt_wf).
-  intros l Hn. destruct l as [|x r]; intros lead ic hw pend st Hl Hp H; [exact H|].
+  intros l Hn. destruct l as [|x r]; intros lead ic hw st Hl H; [exact H|].
   cbn [cn_body].
   destruct (nodes_ok_cons _ _ Hl) as [Hx Hrl].
-  assert (Hr : forall a b c d s, pend_ok d -> Pw s -> Pw (cn_body o r a b c d s)).
-  { intros. eapply (IHn (nodes_size r)); [|reflexivity|exact Hrl|assumption|assumption].
+  assert (Hr : forall a b c s, Pw s -> Pw (cn_body o r a b c s)).
+  { intros. eapply (IHn (nodes_size r)); [|reflexivity|exact Hrl|assumption].
     subst n. apply size_tail. }
-  destruct (is_comment (node_tok x)).
-  { apply Hr; [|exact H]. destruct lead; [exact I | apply keep_first_ok; assumption]. }
-  destruct (is_ws (node_tok x) && lead); [apply Hr; [exact I | exact H]|].
-  apply Hr; [exact I|].
-  pose proof (or_pos_ok pend (node_pos x) Hp Hx) as Hop.
+  destruct (is_comment (node_tok x)); [apply Hr; exact H|].
+  destruct (is_ws (node_tok x) && lead); [apply Hr; exact H|].
+  apply Hr.
   set (st0 := if is_curly (node_tok x) || is_ws (node_tok x) then st
-              else if hw then tok_sp st (TWs sp) (or_pos pend (node_pos x)) None else st).
+              else if hw then tok_sp st (TWs sp) (node_pos x) None else st).
   assert (H0 : Pw st0).
   { unfold st0. destruct (is_curly (node_tok x) || is_ws (node_tok x)); [exact H|]. destruct hw; auto with pw. }
   destruct x as [t p | open p body endp closed].
-  - destruct t; cbn [fst snd]; auto with pw.
-  - cbn [fst snd]. destruct (nodes_ok_block _ _ _ _ _ _ Hl) as [He Hb].
-    apply Pw_tok_at; [exact Hop|].
-    destruct (is_func open); [apply Pw_rpx_body; [exact Hb | exact I | auto with pw]|].
-    eapply (IHn (nodes_size body)); [|reflexivity|exact Hb|exact I|auto with pw].
+  - cbn [node_pos] in *. destruct t; cbn [fst snd]; auto with pw.
+  - cbn [fst snd node_pos] in *. destruct (nodes_ok_block _ _ _ _ _ _ Hl) as [He Hb].
+    apply Pw_tok_at; [exact Hx|].
+    destruct (is_math_fn open); [apply Pw_rpx_body; [exact Hb | auto with pw]|].
+    eapply (IHn (nodes_size body)); [|reflexivity|exact Hb|auto with pw].
     subst n. apply size_body.
 Qed.
 
-Lemma Pw_qr_loop : forall o l ic hw pend st,
-  nodes_ok l -> pend_ok pend -> Pw st -> Pw (snd (qr_loop o l ic hw pend st)).
+Lemma Pw_qr_loop : forall o l ic hw st,
+  nodes_ok l -> Pw st -> Pw (snd (qr_loop o l ic hw st)).
 Proof.
-  intros o l. induction l as [|x r IH]; intros ic hw pend st Hl Hp H; [exact H|].
+  intros o l. induction l as [|x r IH]; intros ic hw st Hl H; [exact H|].
   cbn [qr_loop].
   destruct (nodes_ok_cons _ _ Hl) as [Hx Hrl].
-  destruct (is_comment (node_tok x)); [apply IH; [exact Hrl | apply keep_first_ok; assumption | exact H]|].
-  pose proof (or_pos_ok pend (node_pos x) Hp Hx) as Hop.
+  destruct (is_comment (node_tok x)); [apply IH; [exact Hrl | exact H]|].
   set (st0 := if is_curly (node_tok x) || is_ws (node_tok x) then st
-              else if hw then tok_sp st (TWs sp) (or_pos pend (node_pos x)) None else st).
+              else if hw then tok_sp st (TWs sp) (node_pos x) None else st).
   assert (H0 : Pw st0).
   { unfold st0. destruct (is_curly (node_tok x) || is_ws (node_tok x)); [exact H|]. destruct hw; auto with pw. }
   destruct x as [t p | open p body endp closed].
-  - destruct t; try (apply IH; [exact Hrl | exact I | auto with pw]).
-    destruct (c =? 46); apply IH; solve [exact Hrl | exact I | auto with pw].
-  - destruct (nodes_ok_block _ _ _ _ _ _ Hl) as [He Hb].
+  - cbn [node_pos] in *. destruct t; try (apply IH; [exact Hrl | auto with pw]).
+    destruct (c =? 46); apply IH; solve [exact Hrl | auto with pw].
+  - cbn [node_pos] in *. destruct (nodes_ok_block _ _ _ _ _ _ Hl) as [He Hb].
     destruct open;
-      try (apply IH; [exact Hrl | exact I | apply Pw_tok_at; [exact Hop | apply Pw_cn_body; [exact Hb | exact I | auto with pw]]]).
-    cbn [snd]. apply Pw_tok_at; [exact Hop|]. apply Pw_rpx_body; [exact Hb | exact I | auto with pw].
+      try (apply IH; [exact Hrl | apply Pw_tok_at; [exact Hx | apply Pw_cn_body; [exact Hb | auto with pw]]]).
+    cbn [snd]. apply Pw_tok_at; [exact Hx|]. apply Pw_rpx_body; [exact Hb | auto with pw].
 Qed.
 
 Lemma Pw_write_attr : forall st n v p, Sp p -> Pw st -> Pw (write_attr_selector st n v p).
@@ -199,7 +187,7 @@ Proof.
   intros o st p body Hp Hb H. unfold host_emit.
   apply Pw_set_using_low. unfold low_close_wrappers.
   apply Pw_fold_left; [intros; apply Pw_emit_low; [exact I | assumption]|].
-  apply Pw_tok_at; [exact Hp|]. apply Pw_rpx_body; [exact Hb | exact I |]. apply Pw_tok_at; [exact Hp|].
+  apply Pw_tok_at; [exact Hp|]. apply Pw_rpx_body; [exact Hb |]. apply Pw_tok_at; [exact Hp|].
   assert (H1 : Pw (low_open_wrappers (set_using_low st true))).
   { unfold low_open_wrappers. apply Pw_fold_left; [|auto with pw].
     intros. apply Pw_emit_low; [exact I|]. apply Pw_emit_low; [exact I | assumption]. }
@@ -222,17 +210,17 @@ Lemma Pw_qrule : forall o l endp st, nodes_ok l -> Pw st -> Pw (snd (qrule o l e
 Proof.
   intros o l endp st Hl0 H. unfold qrule.
   pose proof (nodes_ok_skip_ws _ Hl0) as Hl.
-  destruct (convert_host o); [|apply Pw_qr_loop; [exact Hl | exact I | exact H]].
+  destruct (convert_host o); [|apply Pw_qr_loop; [exact Hl | exact H]].
   unfold host_try_parse.
-  destruct (skip_ws l) as [|x r]; [apply Pw_qr_loop; [exact Hl | exact I | exact H]|].
-  destruct x as [t p|open p body e c]; [|apply Pw_qr_loop; [exact Hl | exact I | exact H]].
-  destruct t; try (apply Pw_qr_loop; [exact Hl | exact I | exact H]).
+  destruct (skip_ws l) as [|x r]; [apply Pw_qr_loop; [exact Hl | exact H]|].
+  destruct x as [t p|open p body e c]; [|apply Pw_qr_loop; [exact Hl | exact H]].
+  destruct t; try (apply Pw_qr_loop; [exact Hl | exact H]).
   destruct (nodes_ok_cons _ _ Hl) as [_ Hr].
   pose proof (nodes_ok_skip_ws _ Hr) as Hr1.
   destruct (skip_ws r) as [|y r2]; [exact H|].
   destruct (nodes_ok_cons _ _ Hr1) as [_ Hr2].
   match goal with |- Pw (snd match match ?s with _ => _ end with _ => _ end) => destruct s as [inv|] end;
-    [|apply Pw_qr_loop; [exact Hl | exact I | exact H]].
+    [|apply Pw_qr_loop; [exact Hl | exact H]].
   destruct (host_scan r2 endp inv) as [[[nd rest] [wp|]]|] eqn:Es; cbn [snd]; try exact H.
   - destruct nd; auto with pw.
   - pose proof (host_scan_ok _ _ _ _ _ _ Hr2 Es) as Hn.
@@ -258,11 +246,11 @@ Proof.
     destruct open; try exact H; try (split; [assumption | split; assumption]).
     destruct (str_eqb s s_layer).
     { apply IH; [exact Hrl | constructor; [exact Hx | exact Hc] |].
-      apply Pw_tok_at; [exact Hx|]. apply Pw_cn_body; [exact Hb | exact I | auto with pw]. }
+      apply Pw_tok_at; [exact Hx|]. apply Pw_cn_body; [exact Hb | auto with pw]. }
     destruct (str_eqb s s_supports).
     { apply IH; [exact Hrl | constructor; [exact Hx | exact Hc] |].
       apply Pw_tok_at; [exact Hx|]. apply Pw_tok_at; [exact Hx|].
-      apply Pw_cn_body; [exact Hb | exact I | auto with pw]. }
+      apply Pw_cn_body; [exact Hb | auto with pw]. }
     split; [assumption | split; assumption].
 Qed.
 
@@ -279,7 +267,7 @@ Proof.
     cbn [fst snd]. split; assumption.
   - destruct (nodes_ok_block _ _ _ _ _ _ Hl) as [He Hb]. cbn [node_pos] in Hx.
     destruct open;
-      try (apply IH; [exact Hrl | apply Pw_tok_at; [exact Hx | apply Pw_cn_body; [exact Hb | exact I | auto with pw]]]).
+      try (apply IH; [exact Hrl | apply Pw_tok_at; [exact Hx | apply Pw_cn_body; [exact Hb | auto with pw]]]).
     cbn [fst snd]. split; [auto with pw | exact I].
 Qed.
 
@@ -289,16 +277,28 @@ Proof.
   cbn [fold_left]. inversion Hc; subst. apply IH; [assumption | auto with pw].
 Qed.
 
+Lemma import_target_ok : forall r path r1, nodes_ok r -> import_target r = Some (path, r1) -> nodes_ok r1.
+Proof.
+  intros r path r1 Hr0 E. unfold import_target in E.
+  pose proof (nodes_ok_skip_ws _ Hr0) as Hr.
+  destruct (skip_ws r) as [|x r2]; [discriminate|].
+  destruct (nodes_ok_cons _ _ Hr) as [_ Hr2].
+  destruct x as [t p|open p body e c].
+  - destruct t; try discriminate; inversion E; subst; exact Hr2.
+  - destruct open; try discriminate.
+    destruct (str_eqb_ci s s_url); [|discriminate].
+    destruct (skip_ws body) as [|y b2]; [discriminate|].
+    destruct y as [t2 p2|? ? ? ? ?]; [|discriminate]. destruct t2; try discriminate.
+    destruct (skip_ws b2); [|discriminate]. inversion E; subst; exact Hr2.
+Qed.
+
 Lemma Pw_import_try : forall o sign spos r endp st, nodes_ok r -> Sp endp -> Sp spos -> Pw st ->
   Pw (snd (import_try o sign spos r endp st)) /\
   match fst (import_try o sign spos r endp st) with Some rest => nodes_ok rest | None => True end.
 Proof.
   intros o sign spos r endp st Hr0 He Hs H. unfold import_try.
-  pose proof (nodes_ok_skip_ws _ Hr0) as Hr.
-  destruct (skip_ws r) as [|x r1]; [split; [exact H | exact I]|].
-  destruct (nodes_ok_cons _ _ Hr) as [_ Hr1].
-  destruct x as [t p|? ? ? ? ?]; [|split; [exact H | exact I]].
-  destruct t; try (split; [exact H | exact I]).
+  destruct (import_target r) as [[path r1]|] eqn:Et; [|split; [exact H | exact I]].
+  pose proof (import_target_ok _ _ _ Hr0 Et) as Hr1.
   pose proof (Pw_import_conds o r1 [] st Hr1 (Forall_nil _) H) as Hc.
   destruct (import_conds o r1 [] st) as [s1 | cursor hm closes s1]; [split; [exact Hc | exact I]|].
   destruct Hc as [Hc [Hcur Hcl]].
@@ -332,9 +332,9 @@ Proof.
     cbn [fst snd]. split; [auto with pw | exact Hrl].
   - destruct (nodes_ok_block _ _ _ _ _ _ Hl) as [He Hb]. cbn [node_pos] in Hx.
     destruct open;
-      try (apply IH; [exact Hrec | exact Hrl | apply Pw_tok_at; [exact Hx | apply Pw_cn_body; [exact Hb | exact I | auto with pw]]]).
+      try (apply IH; [exact Hrec | exact Hrl | apply Pw_tok_at; [exact Hx | apply Pw_cn_body; [exact Hb | auto with pw]]]).
     cbn [fst snd]. split; [|exact Hrl]. apply Pw_set_stack. apply Pw_tok_at; [exact Hx|].
-    destruct contain; [apply Hrec; [exact Hb | exact He | auto with pw] | apply Pw_rpx_body; [exact Hb | exact I | auto with pw]].
+    destruct contain; [apply Hrec; [exact Hb | exact He | auto with pw] | apply Pw_rpx_body; [exact Hb | auto with pw]].
 Qed.
 
 Lemma Pw_at_rule : forall o rec l endp at_start st,
@@ -362,9 +362,9 @@ Proof.
     split; assumption.
 Qed.
 
-Lemma qr_loop_rest_ok : forall o l ic hw pend st, nodes_ok l -> nodes_ok (fst (qr_loop o l ic hw pend st)).
+Lemma qr_loop_rest_ok : forall o l ic hw st, nodes_ok l -> nodes_ok (fst (qr_loop o l ic hw st)).
 Proof.
-  intros o l. induction l as [|x r IH]; intros ic hw pend st Hl; [exact Hl|].
+  intros o l. induction l as [|x r IH]; intros ic hw st Hl; [exact Hl|].
   cbn [qr_loop]. destruct (nodes_ok_cons _ _ Hl) as [_ Hr].
   destruct (is_comment (node_tok x)); [apply IH; exact Hr|].
   destruct x as [t p|open p b e c].
